@@ -33,6 +33,11 @@ def limit_pairs(rng, xmin, xmax, knots, n):
         b = rng.choice(pool) if rng.random() < 0.7 else rng.uniform(xmin - span, xmax + span)
         out.append((float(a), float(b)))
     out += [(xmin, xmin), (xmax + 5, xmax + 5), (xmax + 10, xmin - 10), (xmin - 10, xmax + 10)]
+    # distinct limits very close to each other (fine grids at large levels): relative gaps 1e-12 .. 1e-4
+    for _ in range(max(4, n // 5)):
+        a = float(rng.choice(pool)) if rng.random() < 0.5 else rng.uniform(xmin - span, xmax + span)
+        gap = abs(a if a else 1.0) * 10 ** rng.uniform(-12, -4) + 10 ** rng.uniform(-9, -5)
+        out.append((a, a + gap) if rng.random() < 0.5 else (a + gap, a))
     return out
 
 
